@@ -2,7 +2,9 @@ package main
 
 import (
 	"bufio"
+	"bytes"
 	"encoding/hex"
+	"encoding/json"
 	"fmt"
 	"github.com/ohler55/ojg"
 	"github.com/ohler55/ojg/oj"
@@ -10,6 +12,7 @@ import (
 	"os"
 	"path/filepath"
 	"strings"
+	"unicode/utf8"
 )
 
 type pcase struct {
@@ -178,6 +181,28 @@ func suiteParse(prop, tier string, seed uint64, model string, kinds map[string]b
 		}
 		if len(c.in) > 1 {
 			nontrivial++
+		}
+		if kinds["accept"] && len(bytes.TrimSpace(c.in)) > 0 && !bytes.HasPrefix(c.in, []byte("\xef\xbb\xbf")) {
+			// the reference recogniser itself against an independent decoder (encoding/json): same
+			// language, except that the empty text is no document for encoding/json and that a byte
+			// order mark is not skipped there
+			rep.Evaluations++
+			if gv := json.Valid(c.in); gv != spec {
+				rep.Add(Disagreement{Case: h, Where: "reference recogniser vs encoding/json", Kind: "spec-vs-go:accept", Impl: fmt.Sprint(gv), Spec: fmt.Sprint(spec)})
+			}
+		}
+		if kinds["value"] && strings.HasPrefix(specTree, "O ") && utf8.Valid(c.in) && len(bytes.TrimSpace(c.in)) > 0 && !bytes.HasPrefix(c.in, []byte("\xef\xbb\xbf")) {
+			// the reference parser itself against encoding/json (numbers as text): same tree, for texts
+			// that are valid UTF-8 (encoding/json replaces invalid bytes, the reference keeps them)
+			dec := json.NewDecoder(bytes.NewReader(c.in))
+			dec.UseNumber()
+			var gv any
+			if err := dec.Decode(&gv); err == nil {
+				rep.Evaluations++
+				if got := "O " + Show(gv); got != specTree {
+					rep.Add(Disagreement{Case: h, Where: "reference parser vs encoding/json", Kind: "spec-vs-go:value", Impl: got, Spec: specTree})
+				}
+			}
 		}
 		for j, fe := range fes {
 			impl := RunFE(fe, c.in, nil, false)
